@@ -40,6 +40,8 @@ type Engine struct {
 	SolverKind  string
 	DumpQueries string
 	AbstractHashes bool
+	NoIncremental  bool
+	IncMs          int
 	czCache     sync.Map
 	Verbose     bool
 	LoadTime    time.Duration
@@ -269,10 +271,15 @@ func (e *Engine) RunHarness(h *ssa.Function) *HarnessResult {
 			mu.Unlock()
 			return
 		}
+		si, err := smt.NewSolver(e.SolverKind)
+		if err != nil {
+			return
+		}
 		mu.Lock()
-		solvers = append(solvers, s)
+		solvers = append(solvers, s, si)
 		mu.Unlock()
 		defer s.Close()
+		defer si.Close()
 		for {
 			mu.Lock()
 			for len(work) == 0 && inflight > 0 {
@@ -296,7 +303,7 @@ func (e *Engine) RunHarness(h *ssa.Function) *HarnessResult {
 			started++
 			mu.Unlock()
 
-			res := e.runPath(h, prefix, s)
+			res := e.runPath(h, prefix, s, si)
 
 			mu.Lock()
 			inflight--
@@ -339,7 +346,32 @@ func (e *Engine) RunHarness(h *ssa.Function) *HarnessResult {
 		wg.Add(1)
 		go func() { defer wg.Done(); worker() }()
 	}
+	stopProg := make(chan struct{})
+	if os.Getenv("GOSYM_PROGRESS") != "" {
+		go func() {
+			tk := time.NewTicker(20 * time.Second)
+			defer tk.Stop()
+			for {
+				select {
+				case <-stopProg:
+					return
+				case <-tk.C:
+					mu.Lock()
+					var q int
+					var st time.Duration
+					for _, s := range solvers {
+						q += s.Stats.Queries
+						st += s.Stats.Time
+					}
+					fmt.Fprintf(os.Stderr, "  [progress %s] paths done=%d inflight=%d queued=%d solver queries=%d solver time=%v\n",
+						shortFn(h.String()), hr.Paths, inflight, len(work), q, st.Round(time.Second))
+					mu.Unlock()
+				}
+			}
+		}()
+	}
 	wg.Wait()
+	close(stopProg)
 	for _, s := range solvers {
 		hr.SolverMs += s.Stats.Time.Milliseconds()
 		if s.Stats.MaxQuery.Milliseconds() > hr.MaxQueryMs {
@@ -357,12 +389,15 @@ func (e *Engine) RunHarness(h *ssa.Function) *HarnessResult {
 	return hr
 }
 
-func (e *Engine) runPath(h *ssa.Function, prefix []bool, s *smt.Solver) (res *pathResult) {
+func (e *Engine) runPath(h *ssa.Function, prefix []bool, s, si *smt.Solver) (res *pathResult) {
 	res = &pathResult{Reached: map[string]bool{}, Funcs: map[string]bool{}, Intrinsics: map[string]int{}, Assumes: map[string]int{}, Lemmas: map[string]int{}}
 	p := &pathRun{
 		eng: e, harness: h.String(), ctx: smt.NewCtx(), prefix: prefix, solver: s, res: res,
 		ndSeen: map[string]bool{}, syncTab: map[*value]*syncState{}, counters: map[string]int{},
 		ghost: map[string]value{}, stringsT: map[string]*smt.Term{},
+	}
+	if si != nil && !e.NoIncremental {
+		p.inc = smt.NewInc(si, p.ctx)
 	}
 	p.sched = newScheduler(p)
 	it := &interpreter{eng: e, p: p, prog: e.prog, globals: map[*ssa.Global]*value{}, inited: map[*ssa.Package]bool{},
@@ -374,11 +409,17 @@ func (e *Engine) runPath(h *ssa.Function, prefix []bool, s *smt.Solver) (res *pa
 			}
 		}()
 		call(it, nil, token.NoPos, h, nil)
+		// goroutines that outlive the harness call are run to completion, but their
+		// forks are not multiplied out (one feasible branch each; counted)
+		p.draining = true
 		for p.sched.yield() {
 		}
 		if !p.done {
 			p.done = true
 			res.Outcome = "ok"
+			// every completed path discharges the implicit obligation "no panic, no hang on this path"
+			res.Obligations = append(res.Obligations, Obligation{Kind: "no-panic", Label: "path completes without panic or hang",
+				Status: "discharged", Trail: trailString(p.trail)})
 		}
 	}()
 	p.sched.shutdown()
